@@ -373,6 +373,32 @@ def _differential(ctx):
             dis.append(mk_dis("AXILiteConverter(%d->%d)" % (f, t), "adapter-glue: converter choice", v, r))
     ctx.cov.add_cases("AXILiteConverter down/up/direct choice", len(pairs), len(pairs), exhaustive=True,
                       mode="differential")
+    # AxSIZE constant AXILite2AXI / Wishbone2AXI announce, all bus widths up to 1024 bits: real netlist vs `axsize`
+    # (model) and vs the AXI rule size = log2(bus bytes) for full-width beats (model-independent)
+    widths = [8, 16, 32, 64, 128, 256, 512, 1024]
+    ans = ctx.lean.call_batch(["axsize %d" % w for w in widths])
+    for w, r in zip(widths, ans):
+        got = {}
+        for cls in ("AXILite2AXI", "Wishbone2AXI"):
+            ax = axi.AXIInterface(data_width=w, address_width=32)
+            if cls == "AXILite2AXI":
+                mod = axi.AXILite2AXI(axi.AXILiteInterface(data_width=w, address_width=32), ax)
+            else:
+                if w < 16:
+                    continue
+                mod = axi.Wishbone2AXI(wishbone.Interface(data_width=w, address_width=32, addressing="word"), ax)
+            nl = Netlist(mod)
+            nl.settle()
+            got[cls] = (nl.getu(ax.aw.size), nl.getu(ax.ar.size), nl.getu(ax.aw.len), nl.getu(ax.ar.len))
+        for cls, g4 in got.items():
+            name = "%s(dw=%d)" % (cls, w)
+            if g4 != (log2(w // 8),) * 2 + (0, 0):
+                dis.append(mk_dis(name, "monitor:%s on a %d-bit bus drives aw.size/ar.size/aw.len/ar.len = %r (a "
+                                  "full-width single beat is size %d, len 0)" % (cls, w, g4, log2(w // 8))))
+            elif g4[0] != int(r):
+                dis.append(mk_dis(name, "adapter-glue: AxSIZE constant", list(g4), r))
+    ctx.cov.add_cases("AxSIZE constant of AXILite2AXI / Wishbone2AXI, 8..1024 bits", 2 * len(widths), 2 * len(widths),
+                      exhaustive=True, mode="differential")
     # wishbone.Converter byte map (element model of the composition theorem; the converter itself is C07's)
     wpairs = [(64, 32), (32, 64)] if ctx.tier == "quick" else [(64, 32), (32, 64), (128, 32), (32, 128), (64, 128)]
     cases = []
